@@ -121,6 +121,8 @@ type gen struct {
 	// (time out of range: partial write reported by the points writer; missing measurement:
 	// checked for the whole block afterwards)
 	parserOnly bool
+	// noMissingMeas: no line without a measurement (it makes openGemini refuse the whole block)
+	noMissingMeas bool
 	// longStrings: every valid line carries a ~2 KB string so that the request spans
 	// several 64 KiB read blocks of the server
 	longStrings bool
@@ -778,8 +780,11 @@ var mutationKinds = []string{
 func (g *gen) invalidLine() Line {
 	r := g.r
 	kind := mutationKinds[g.next("mut", len(mutationKinds))]
-	for g.parserOnly && (kind == "ts-out-of-range" || kind == "missing-measurement") {
+	for g.parserOnly && kind == "ts-out-of-range" || (g.parserOnly || g.noMissingMeas) && kind == "missing-measurement" {
 		kind = mutationKinds[g.next("mut", len(mutationKinds))]
+	}
+	if g.noMissingMeas && g.next("more-ts-oor", 4) == 0 {
+		kind = "ts-out-of-range"
 	}
 	ln := Line{ID: g.newID(), Kind: kInvalid, Why: kind}
 	ts := strconv.FormatInt((recentBase*1e9+r.Int64N(400000*1e9))/precMult(g.prec), 10)
@@ -806,7 +811,8 @@ func (g *gen) invalidLine() Line {
 	case "tag-no-value":
 		t = pick(head+",tk0 fi=1i "+ts, g.meas+",tk0,u="+ln.ID+" fi=1i "+ts)
 	case "unquoted-string":
-		t = head + " fs=" + pick("hello", "off", "half", "abc", "yes", "on", "null", "self", "x1", "a.b", "tt", "ff", "1a", "i", "u") + " " + ts
+		// a key of its own: a type conflict with a string column must not mask an acceptance
+		t = head + " fsu=" + pick("hello", "off", "half", "abc", "yes", "on", "null", "self", "x1", "a.b", "tt", "ff", "1a", "i", "u") + " " + ts
 	case "bad-int":
 		t = head + " fi=" + pick("1.5i", "1e3i", "12ii", "--1i", "1-i", "i", "-i", "1 i", "0x1fi", "1_0i") + " " + ts
 	case "bad-float":
@@ -822,7 +828,11 @@ func (g *gen) invalidLine() Line {
 		// once multiplied by the precision)
 		m := precMult(g.prec)
 		var v string
-		switch g.next("tsoor", 4) {
+		which := g.next("tsoor", 4)
+		if m > 1 && g.next("tsoor-wrap", 2) == 0 {
+			which = 2
+		}
+		switch which {
 		case 0:
 			v = strconv.FormatInt(maxNano/m+1, 10)
 		case 1:
